@@ -25,6 +25,7 @@
 package main
 
 import (
+	"bytes"
 	"context"
 	"crypto"
 	"crypto/ecdsa"
@@ -121,9 +122,9 @@ func (k *Case) rootOption(b *built) authority.Option {
 }
 
 func (k *Case) rootFields(b *built) string {
-	signs := b.ints[len(b.ints)-1].CheckSignatureFrom(b.root) == nil
+	signs := issuedBy(b.ints, b.root)
 	cur := certField(b.root) + "~" + c.B(signs)
-	old := certField(retired) + "~" + c.B(b.ints[len(b.ints)-1].CheckSignatureFrom(retired) == nil)
+	old := certField(retired) + "~" + c.B(issuedBy(b.ints, retired))
 	if k.Cfg == "files2" {
 		return "roots=" + old + "|" + cur
 	}
@@ -416,6 +417,17 @@ func build(k *Case) (*built, bool) {
 	}
 	b.auth = a
 	return b, true
+}
+
+// issuedBy: the input bit of the root selection in authority.init — the root's subject is the
+// issuer of an intermediate of the list and its key verifies that intermediate's signature.
+func issuedBy(ints []*x509.Certificate, root *x509.Certificate) bool {
+	for _, crt := range ints {
+		if bytes.Equal(crt.RawIssuer, root.RawSubject) && crt.CheckSignatureFrom(root) == nil {
+			return true
+		}
+	}
+	return false
 }
 
 func certField(crt *x509.Certificate) string {
